@@ -21,7 +21,8 @@ def run_e1(prop, tier, seed, specs, work, family, bounds, extra_cov=None, assump
         "bounds": bounds,
         "functions_exercised": "whole compiler run per program (teaal.parse.*, teaal.ir.*, teaal.trans.*); the emitted text is symbolically executed",
         "vacuity": "per program: reference not identically zero (sat witness) and a deliberately wrong reference refuted (sat)",
-        "exhaustive": True,
+        "exhaustive": False,
+        "exhaustive_note": "the specification family is bounded and enumerated; oversized sub-families (loop-order permutations, slices) are sampled with a seeded generator, per program the input space is covered completely by the solver",
     }
     cov.update(extra_cov or {})
     return runner.finish(prop, tier, seed, "translation_validation", res, t0, cov, assumptions or e1.ASSUMPTIONS)
